@@ -1324,17 +1324,18 @@ fn check_link(objs: &[Obj], obs: &mut Obs) -> Result<(), Failure> {
 }
 
 fn check(case: &Case, obs: &mut Obs) -> Result<(), Failure> {
-    // development aid: C19_DUMP_DIR=<dir> with --replay writes the image(s) of the case there
-    // (to look at them with readelf)
-    if obs.replay {
+    // development aid: C19_DUMP_DIR=<dir> writes the image(s) of every case there (to look at them
+    // with readelf); never set in a registered run
+    {
         if let Ok(dir) = std::env::var("C19_DUMP_DIR") {
+            let seq = SCRATCH_SEQ.fetch_add(1, std::sync::atomic::Ordering::Relaxed);
             let imgs: Vec<(String, &Image)> = match case {
                 Case::Single { image, .. } => vec![("image".to_string(), image)],
                 Case::Link { objs } => objs.iter().map(|o| (o.file.clone(), &o.image)).collect(),
             };
             for (name, img) in imgs {
                 if let Some(b) = build(img) {
-                    let _ = std::fs::write(std::path::Path::new(&dir).join(name), &b.bytes);
+                    let _ = std::fs::write(std::path::Path::new(&dir).join(format!("{}-{}-{}", std::process::id(), seq, name)), &b.bytes);
                 }
             }
         }
